@@ -48,7 +48,11 @@ func (s *LookupJoin) Run(ctx ExecutionContext, produce ProduceFn, metaSend MetaS
 			}
 
 			return nil
-		}, metaSend); err != nil {
+		}, func(ctx ProduceContext, msg MetadataMessage) error {
+			// The output carries the source's event times, and so only the source's watermarks apply to it.
+			// The joined stream is run again for every source record, its watermarks would go back and forth.
+			return nil
+		}); err != nil {
 			return fmt.Errorf("couldn't run joined stream: %w", err)
 		}
 
